@@ -440,6 +440,17 @@ def filter_judged(world, fspec):
     return mode is True
 
 
+def pair_partial(world, fspec):
+    """filter_pair / filter_candset verdicts: OverlapFilter.filter_pair is
+    judged in either tokenizer mode - its overlap is the number of distinct
+    shared tokens (utils.simfunctions.overlap documents that lists are
+    converted to sets), so "exact" has one meaning there; only filter_tables
+    with a bag tokenizer (posting lists with multiplicity) stays unjudged."""
+    if fspec['kind'] == 'OverlapFilter':
+        return False
+    return not filter_judged(world, fspec)
+
+
 def filter_oracle_for(world, fspec, lrows, rrows, lkey, rkey, lattr, rattr):
     return model.filter_oracle(
         lrows, rrows, lkey, rkey, lattr, rattr,
@@ -500,7 +511,7 @@ def judge_filter_candset(world, op, out, cand_df, results):
                     (res.index[:10], exp_index[:10])))
     # model verdicts (only the mode-independent ones if the tokenizer is not
     # in the mode C04 assumes)
-    partial = not filter_judged(world, fspec)
+    partial = pair_partial(world, fspec)
     if True:
         tokname = fspec['tokenizer']
         tok = model.Tok(world.tokspec[tokname], world.tok_mode(tokname))
@@ -543,7 +554,7 @@ def judge_filter_candset(world, op, out, cand_df, results):
 def judge_filter_pair(world, op, out):
     vs = []
     fspec = world.case['filters'][op['filter']]
-    partial = not filter_judged(world, fspec)
+    partial = pair_partial(world, fspec)
     fkind = fspec['kind']
     comp = 'filter_pair:%s:%s' % (fkind, fmeasure(fspec))
     tokname = fspec['tokenizer']
